@@ -2373,7 +2373,7 @@ class sptensor:
         if access_type == IndexVariant.SUBTENSOR:
             updated_key = []
             for dim, entry in enumerate(key):
-                updated_key.append(_wrap_region_entry(entry, dim, self.shape))
+                updated_key.append(_wrap_region_entry(entry, dim, self.shape, True))
             return self._set_subtensor(updated_key, value)
         # Case 2: Subscripts
         if access_type == IndexVariant.SUBSCRIPTS:
@@ -3744,8 +3744,12 @@ class sptensor:
         return squashed_tensor
 
 
-def _wrap_region_entry(entry, dim: int, shape):
-    """Negative indices of a region key count from the end (numpy semantics)."""
+def _wrap_region_entry(entry, dim: int, shape, grow: bool = False):
+    """Negative indices of a region key count from the end (numpy semantics).
+
+    For an assignment (grow) the end is the one the mode has after the growth
+    the same index list demands, as for a dense tensor.
+    """
     if isinstance(entry, (int, np.integer)):
         if entry < 0:
             if dim >= len(shape) or entry < -shape[dim]:
@@ -3754,9 +3758,12 @@ def _wrap_region_entry(entry, dim: int, shape):
     elif not isinstance(entry, slice) and isinstance(entry, Iterable):
         idx = np.asarray(entry)
         if idx.size > 0 and np.issubdtype(idx.dtype, np.integer) and (idx < 0).any():
-            if dim >= len(shape) or (idx < -shape[dim]).any():
+            extent = shape[dim] if dim < len(shape) else 0
+            if grow:
+                extent = max(extent, int(idx.max()) + 1)
+            if (idx < -extent).any():
                 raise IndexError(f"index list {entry} is out of bounds for mode {dim}")
-            idx = np.where(idx < 0, idx + shape[dim], idx)
+            idx = np.where(idx < 0, idx + extent, idx)
             entry = idx.tolist() if isinstance(entry, list) else idx
     return entry
 
